@@ -9,6 +9,8 @@ import (
 	"io"
 	"os"
 	"reflect"
+	"strings"
+	"unicode/utf8"
 
 	"github.com/tormoder/fit"
 
@@ -396,14 +398,17 @@ func runC05(w *vx.W) {
 			if e.Base != fitmodel.String || e.Array {
 				continue
 			}
-			for vi := 10; vi <= 13; vi++ {
+			for _, vi := range []int{10, 11, 12, 13, 30, 31, 32, 33, 34} {
 				for c := 0; c < 4; c++ {
 					k++
 					if !w.Mine(k) {
 						continue
 					}
 					g := genSpec{Slot: gs, Msgs: [][]genFieldSet{{{e.Slot, vi}}, {{e.Slot, 0}}}, HdrCRC: c&1 == 0, Big: c&2 != 0, Desc: fmt.Sprintf("field %d holding invalid UTF-8 #%d", e.Num, vi)}
-					f, _, err := g.build()
+					if vi >= 30 {
+						g.Desc = fmt.Sprintf("field %d holding an over-long string cut inside a wide rune #%d", e.Num, vi)
+					}
+					f, msgsPut, err := g.build()
 					if err != nil {
 						continue
 					}
@@ -421,6 +426,26 @@ func runC05(w *vx.W) {
 							msg = "Encode reports success but the output violates the FIT grammar: " + perr.Error()
 						} else if len(p.Oddities) > 0 {
 							msg = "Encode reports success but the output is not canonical: " + p.Oddities[0]
+						} else if vi >= 30 && len(msgsPut) > 0 {
+							// what was written must be a terminated, valid UTF-8 prefix of the value
+							put := msgsPut[0].Field(e.Sindex).String()
+							for _, r := range p.Recs {
+								if r.Def.Global != gs.Mesg {
+									continue
+								}
+								wire, ok := r.Fields[e.Num]
+								if !ok {
+									msg = "the over-long string is not written at all"
+									break
+								}
+								end := bytes.IndexByte(wire, 0)
+								if end < 0 {
+									msg = fmt.Sprintf("the field is not NUL-terminated: % x", wire)
+								} else if !utf8.Valid(wire[:end]) || !strings.HasPrefix(put, string(wire[:end])) {
+									msg = fmt.Sprintf("the field holds % x, which is not a valid UTF-8 prefix of the value", wire[:end])
+								}
+								break
+							}
 						}
 					}
 					if msg != "" {
